@@ -117,7 +117,17 @@ func Scale(big bool) []ScaleProg {
 		add(fmt.Sprintf("loop-%d", n), fmt.Sprintf("let s = 0;\nfor (let i = 0; i < %d; i++) { s += i }\nprint(s);", n))
 		add(fmt.Sprintf("while-%d", n), fmt.Sprintf("let j = %d;\nlet s = '';\nwhile (j > 0) { j--; s += 'x' }\nprint(s.length);", n))
 	}
+	// one line far beyond typical I/O buffer sizes (4 KiB, 64 KiB; 1 MiB in the thorough tier)
+	for _, n := range []int{5000, 70000} {
+		add(fmt.Sprintf("huge-string-line-%d", n), "let s = '"+strings.Repeat("s", n)+"';\nprint(s.length);\nlet t = `x  \n y`;\nprint(t)")
+		var el []string
+		for i := 0; i < n/5; i++ {
+			el = append(el, fmt.Sprint(i%97))
+		}
+		add(fmt.Sprintf("huge-array-line-%d", n), "let r = ["+strings.Join(el, ", ")+"];\nfunction after(v) { return v + 1 }\nprint(r.length, after(r[3]));")
+	}
 	if big {
+		add("huge-string-line-1200000", "let s = \""+strings.Repeat("m", 1200000)+"\";\nprint(s.length);\nprint(`k \n`)")
 		for _, n := range []int{1025, 4097} {
 			var b strings.Builder
 			for i := 0; i < n; i++ {
